@@ -1,15 +1,61 @@
 import AcraModel.Basic.Bytes
+<<<<<<< HEAD
 import AcraModel.Sql.MysqlComment
 /-! Driver ops for C14. -/
+=======
+import AcraModel.Sql.TokenizerLoop
+/-! Driver ops for C14: the SQL tokenizer. -/
+>>>>>>> wt-btok
 namespace Driver.C14
-open AcraModel
+open AcraModel AcraModel.Sql.Tokenizer
+
+def dialectOf : String → Option Dialect
+  | "mysql" => some .mysql
+  | "ansi" => some .ansi
+  | "postgresql" => some .postgresql
+  | _ => none
+
+/-- `outer[/inner][,multi]` -/
+def parseSpec (s : String) : Option (Dialect × Dialect × Bool) := do
+  let parts := s.splitOn ","
+  let multi := parts.contains "multi"
+  let ds := (parts.headD "").splitOn "/"
+  let o ← dialectOf (ds.headD "")
+  let i ← match ds with
+    | [_] => some o
+    | [_, x] => dialectOf x
+    | _ => none
+  pure (o, i, multi)
+
+def renderTok (t : Token) (pos : Nat) : String :=
+  match t.typ.id with
+  | some n => s!"{n}:{hexOf t.val}:{pos}"
+  | none => s!"?:{hexOf t.val}:{pos}"
 
 def handle (op : String) (args : List String) : Option String :=
   match op, args with
+<<<<<<< HEAD
   -- extractcomment <complete comment, ASCII> → ok <version> <inner SQL> | panic
   | "extractcomment", [c] => do
       let c ← ofHex c
       pure ((Sql.MysqlComment.extract c).render fun (v, s) => s!"{hexOf v} {hexOf s}")
+=======
+  | "tokens", [spec, h] => do
+      let (o, i, multi) ← parseSpec spec
+      let b ← ofHex h
+      match tokenizeFrom i (initial o b multi) with
+      | .ok ts => pure (" ".intercalate (ts.map fun p => renderTok p.1 p.2))
+      | .err => pure "err"
+      | .panic => pure "panic"
+  | "lex", [spec, ac, force, h] => do
+      let (o, i, multi) ← parseSpec spec
+      let b ← ofHex h
+      let f : Option Nat := if force == "-" then none else force.toNat?
+      match lexFrom i (ac == "1") f (initial o b multi) with
+      | .ok ts => pure (" ".intercalate (ts.map fun p => renderTok p.1 p.2))
+      | .err => pure "err"
+      | .panic => pure "panic"
+>>>>>>> wt-btok
   | _, _ => none
 
 end Driver.C14
